@@ -1106,6 +1106,7 @@ type vfC40Env struct {
 
 func vfC40NewDb() (*db19.Database, *DbmsLocal) {
 	db := db19.CreateDb(stor.HeapStor(4 * 1024 * 1024))
+	db19.MaxAge = 1 << 30 // the 20 s transaction age limit is wall-clock: on a loaded machine one side would hit it and the other not
 	db19.StartConcur(db, 300*time.Millisecond)
 	local := NewDbmsLocal(db)
 	local.Admin("create stdlib (name, group, text) key(name, group)", nil)
@@ -1379,7 +1380,9 @@ func TestVerifC40(t *testing.T) {
 				// A transaction that lost a conflict: the checker works asynchronously, so the request
 				// at which the failure surfaces is timing dependent. From the first sign on only the
 				// outcome of the transaction (commit refused on both sides) is compared.
-				if tranH != 0 && (vfC40IsConflict(rr) || vfC40IsConflict(rl)) && op.kind != "complete" {
+				// ReadCount answers -1 for a transaction that has failed: the same sign without an error text
+				failedCount := op.kind == "readcount" && (rr == "n=-1" || rl == "n=-1")
+				if tranH != 0 && (vfC40IsConflict(rr) || vfC40IsConflict(rl) || failedCount) && op.kind != "complete" {
 					if !doomed[tranH] {
 						rep.Count("transactions_failed_by_conflict", 1)
 					}
@@ -1387,8 +1390,9 @@ func TestVerifC40(t *testing.T) {
 				}
 				if tranH != 0 && doomed[tranH] && op.kind != "complete" {
 					rep.Count("ops_on_failed_transaction", 1)
-					if op.kind == "cget" && rr != rl {
-						// the cursor outlives the transaction: it moved on one side only. Give it up.
+					if op.kind == "cget" {
+						// the cursor outlives the transaction: it may have moved on one side only, also when both sides
+						// answer with the same error (the get can succeed inside before the failure surfaces). Give it up.
 						g.dropQC(op.h)
 						cl := &vfC40Op{kind: "close", h: op.h}
 						remote.exec(cl)
